@@ -207,3 +207,23 @@ Example C26_skipped_nonvacuous :
   | _ => False
   end.
 Proof. vm_compute. repeat split; reflexivity. Qed.
+
+(* ---------------- third round ---------------- *)
+(* UpdateSkippedEpochDefinitions after fixes/C26-update-skipped-config-fallback.patch (with the
+   skipped epoch's data in the database, the only path that does not run into the lock mix-up of
+   updateSkippedEpochDataRaw): it never fails, whatever other forks announced *)
+Theorem C26_update_skipped_total : forall s se ce h d, wf (e_tree s) = true -> valid_hdr (e_tree s) h = true ->
+  (se = 0 \/ alookup (dbe s) se = Some d) ->
+  exists l, update_skipped fixed true (enough_fuel (e_tree s)) s se ce h = Ok l /\ l <> [].
+Proof. exact update_skipped_total. Qed.
+Print Assumptions C26_update_skipped_total.
+
+(* the pinned updateSkippedConfigData: configuration for the skipped epoch announced on another
+   fork only => the block that skips the epoch cannot be imported (corpus case `... U,2.3,i5`) *)
+Theorem C26_update_skipped_prefix_refuted :
+  let s := with_dbe cfg_state [(2, 77)] in
+  update_skipped fixed false (enough_fuel cfg_tree) s 2 3 (Imp 5) = Err e_hash_not_in_memory /\
+  exists s', update_skipped fixed true (enough_fuel cfg_tree) s 2 3 (Imp 5) = Ok [s'] /\
+             get_config fixed (enough_fuel cfg_tree) s' 3 (Imp 5) = Ok [8].
+Proof. vm_compute. split; [reflexivity|]. eexists. split; reflexivity. Qed.
+Print Assumptions C26_update_skipped_prefix_refuted.
